@@ -60,6 +60,12 @@ Definition ops_matches (a b : opsf) : bool :=
   (o_typ a =? o_typ b) && (o_hash a =? o_hash b) && (o_alg a =? o_alg b) &&
   list_eqb (o_salt a) (o_salt b).
 
+(* the version of the header is paired with the version of the signature: a v3 header announces a v4
+   signature, a v6 header (which carries the salt hashed in front of the body) a v6 signature; nothing else.
+   (Without the pairing a v4 signature over S || M would verify as a signature over M behind a v6
+   header with salt S.) *)
+Definition ops_pair_ok (ov sv : N) : bool := ((ov =? 3) && (sv =? 4)) || ((ov =? 6) && (sv =? 6)).
+
 (* ---- 10.1: certificates ---- *)
 Definition subkey_version_ok (pv sv : N) : bool :=
   if pv =? 6 then sv =? 6 else if pv <? 4 then false else true.
